@@ -552,7 +552,10 @@ func (s *UtxoStore) deleteUnminedInputs(tx mwdb.DBTransaction, rec *TxRecord) er
 		prevOut := &input.PreviousOutPoint
 		k := canonicalOutPoint(&prevOut.Hash, prevOut.Index)
 		// other unmined transactions may spend the same outpoint: remove only this one
-		spenders := fetchUnminedInputSpendTxHashes(nsUnminedInputs, k)
+		spenders, err := fetchUnminedInputSpendTxHashes(nsUnminedInputs, k)
+		if err != nil {
+			return err
+		}
 		if len(spenders) == 0 {
 			continue
 		}
